@@ -102,6 +102,14 @@ def run(ctx):
                     'UHDR': lambda: [w.uhdr(1, 7)], 'UDATA': lambda: [w.udata(1, [1, 2, 3, 4])],
                 }[cls]()
                 full_cases.append(('alone_%s_%d' % (name, rep), w, stream))
+                # a window of ONE record (NONE / ALL qualified) and START-only / END-only of the composite openers
+                if cls in ('VMF', 'LAUNCH', 'PERF'):
+                    for q in (0, 3, 1, 2):
+                        one = {'VMF': lambda: w.vmf(q, 1, rnd.choice([0, 0, 2]), rnd.randrange(1, 12)),
+                               'LAUNCH': lambda: w.launch(q, 1),
+                               'PERF': lambda: w.perf(q, 1, rnd.random() < 0.5, rnd.random() < 0.5)}[cls]()
+                        full_cases.append(('alone_%s_%d_q%d' % (name, rep, q), w, [one]))
+                        full_cases.append(('alone_%s_%d_q%d_nested' % (name, rep, q), w, [w.rfa(1, 4, 3), one, w.thd(1, 5, 1)]))
                 # every proper suffix: the dump starts in the middle of the operation
                 for cut in range(1, len(stream)):
                     win_cases.append(('alone_%s_%d_cut%d' % (name, rep, cut), w, stream[cut:]))
